@@ -56,7 +56,8 @@ FORMATS = ["", "plain text", "%%", "100%% sure", "%d", "%i items", "x=%5d;", "%-
            "%p", "%x%X%o%u", "%lu-%hhd", "%G%a%A%F%E%g", "end%d", "%s%%%c", "%#x %05i", "%li", "%f"]
 
 def jobs(tier, prefix="C14"):
-    J = []
+    from props import seqcases
+    J = seqcases.array_jobs(tier, "C14")
     L = ["src/Exception.c", "src/Num.c", "src/String.c", "src/Pointer.c", "src/Iter.c", "stubs/throw.c", "stubs/libc_str.c"]
     fmts = FORMATS if tier == "thorough" else FORMATS
     for n, f in enumerate(fmts):
